@@ -31,6 +31,7 @@ ENV = {"ASAN_OPTIONS": "detect_leaks=1:abort_on_error=0:exitcode=99:allocator_ma
 
 ALLOC_FRAMES = {"should_fail", "vf_malloc", "vf_calloc", "vf_realloc", "vf_strdup", "vf_strndup", "yr_malloc", "yr_calloc", "yr_realloc",
                 "yr_strdup", "yr_strndup", "backtrace", "ledger_add", "fp_backtrace", "sitemap_note"}
+LIGHT_QUICK = {"scan_mod_pe_signed", "scan_mod_elf_telfhash"}
 HUGE = 20000          # above this many allocations a scenario is sampled in the thorough tier too
 # listed call sites no scenario reaches: why (keyed by file and enclosing function / callee, not by line)
 UNREACHED_WHY = {
@@ -460,6 +461,14 @@ def run(tier, replay=None):
         if replay and "k" in replay:
             ks1 = [replay["k"]] if replay.get("mode", 1) == 1 else []
             ks2 = [replay["k"]] if replay.get("mode", 1) == 2 else []
+        elif tier == "quick" and N > HUGE:
+            # tens of thousands of allocations per case: the quick tier fails the FIRST allocation of every (call site, caller) pair only
+            ks1 = sorted({g[0] for g in site_ks.get(s[0], {}).values()})
+            ks2 = []
+        elif tier == "quick" and s[0] in LIGHT_QUICK:
+            # module scenarios added for call-site coverage: first/middle/last of every (call site, caller) pair + a coarse stride
+            ks1 = sorted({k for g in site_ks.get(s[0], {}).values() for k in g} | set(range(1, N + 1, max(1, N // 30))) | {N})
+            ks2 = sorted(set(range(1, N + 1, max(1, N // 10))))
         elif tier == "quick" and N > 300 and not (s[0].startswith("compile_small_") and N <= 700):
             stride = max(1, N // 110)
             ks1 = sorted(set(list(range(1, 40)) + list(range(1, N + 1, stride)) + [r.randint(1, N) for _ in range(60)] + [N - 2, N - 1, N]))
@@ -470,8 +479,8 @@ def run(tier, replay=None):
         elif N > HUGE:
             # a scenario with tens of thousands of allocations is sampled in every tier (stride + every (call site, caller) pair)
             directed = sorted({k for g in site_ks.get(s[0], {}).values() for k in g})
-            ks1 = sorted(set(range(1, N + 1, max(1, N // 3000))) | set(directed) | {N - 1, N} | {r.randint(1, N) for _ in range(300)})
-            ks2 = sorted(set(range(1, N + 1, max(1, N // 300))) | {g[0] for g in site_ks.get(s[0], {}).values()})
+            ks1 = sorted(set(range(1, N + 1, max(1, N // 1000))) | set(directed) | {N - 1, N} | {r.randint(1, N) for _ in range(200)})
+            ks2 = sorted(set(range(1, N + 1, max(1, N // 100))) | {g[0] for g in site_ks.get(s[0], {}).values()})
         else:
             ks1 = list(range(1, N + 1))
             ks2 = list(range(1, N + 1)) if tier != "quick" else sorted(set([r.randint(1, max(N, 1)) for _ in range(40)] + list(range(1, N + 1, max(1, N // 30)))))
@@ -480,6 +489,8 @@ def run(tier, replay=None):
         planned[s[0]] = set(ks1) | set(ks2)
         lines = [case_line("%s.1.%d" % (s[0], k), s, 1, k) for k in ks1] + [case_line("%s.2.%d" % (s[0], k), s, 2, k) for k in ks2]
         per = 60 if s[1] != "init" else 25
+        if N > HUGE:
+            per = 12
         for i in range(0, len(lines), per):
             chunks.append((s, lines[i:i + per]))
     with ThreadPoolExecutor(16) as ex:
@@ -667,5 +678,6 @@ def run(tier, replay=None):
     chk.assumptions += ["only allocations made through libyara's allocator (yr_malloc & co.) are failed; flex/bison buffers, OpenSSL, authenticode-parser, tlsh call libc directly",
                         "quick tier samples k for scenarios with more than 300 allocations (stride + random + first 40 + last 3 + first/middle/last allocation of every (call site, caller) pair), thorough enumerates every k",
                         "%d of %d static allocator call sites compiled in this configuration are reached by no scenario (listed in coverage.allocator_call_sites.listed_never_reached)" % (len(never), len(listed)),
-                        "known findings are keyed by (kind, allocation call site, calling context), not by scenario or k"]
+                        "known findings are keyed by (kind, allocation call site, calling context), not by scenario or k",
+                        "scenarios with more than %d allocations (the .NET sample with methods: ~130000) are sampled in every tier: thorough = stride N/1000 + 200 random + first/middle/last of every (call site, caller) pair; quick = the first allocation of every pair" % HUGE]
     return chk.finish("fault_enumeration")
